@@ -25,6 +25,7 @@ type Program struct {
 	Extra    string            // hand-written harness source appended to zz_spec.go (family "custom")
 	ExtraHs  []string          // names of the harness functions in Extra
 	SepHooks string            // source of the hook delegators a separate target package needs
+	ObserveOnly bool          // used by pipeline observations only (no harness is generated for it)
 }
 
 func leafMsg() *M  { return msg("Leaf", nil, fld("Str", TString), fld("Num", TInt64)) }
@@ -203,6 +204,20 @@ func programs() []*Program {
 			return &FileSpec{Name: "p.proto", Msgs: []*M{ea, eb, msg("E22", nil, mfld("EmbA", "EmbA").embed(), fld("Own", TString), mfld("EmbB", "EmbB").embed())}}
 		},
 		Cfg: func() *Config { return baseConfig("E22") }})
+
+	// four nullable embedded messages in one message (emission order of per-embed statements; used by the
+	// determinism and sorted observations only)
+	add(&Program{Name: "P-embed-4", ObserveOnly: true,
+		File: func() *FileSpec {
+			var ms []*M
+			fs := []F{fld("Own", TString)}
+			for _, n := range []string{"EmbP", "EmbQ", "EmbR", "EmbS"} {
+				ms = append(ms, msg(n, nil, fld(n+"Str", TString), fld(n+"Num", TInt64)))
+				fs = append(fs, mfld(n, n).embed())
+			}
+			return &FileSpec{Name: "p.proto", Msgs: append(ms, msg("E4", nil, fs...))}
+		},
+		Cfg: func() *Config { return baseConfig("E4") }})
 
 	// a map of messages next to singular message fields named like the fields of a map entry (key / value)
 	add(&Program{Name: "P-mapvalue", Quick: true, Bounds: map[string][2]int{"refresh": {2, 1}, "echo": {2, 1}, "corrupt": {1, 1}},
